@@ -129,6 +129,13 @@ CLAIMED['C14'] = dict(
     note='Coq kernel; no axioms; floats are carried as repr tokens with the premise that repr() of a finite float is float syntax and never an int literal (CPython); '
          'ASCII only (Unicode digits are outside the model); repr/eval of meta messages, tracks and files are checked on the implementation (Python\'s eval is not modelled).',
     technique='Coq proof (decimal round trip, split/join lemmas, case analysis over all attributes) + character-exact model/implementation correspondence', design='5/C14')
+CLAIMED['C20'] = dict(
+    text='Theorems over a model of Backend (name/API resolution, lazy import, open_input/open_output/open_ioport, name listings): for EVERY configuration (all strings '
+         'quantified) and after ANY earlier operations the constructor, port name and API that reach the module follow the precedence explicit > environment (when '
+         'use_environ) > default, resp. caller api > Backend(api) > name suffix; the module is imported only when first needed, exactly once; I/O names are the inputs that '
+         'are also outputs, in input order. The COMPLETE finite grid (15 552 configurations) runs against a recording fake backend module.',
+    note='Coq kernel; no axioms; strings are tokens; the import system is observed through the import log of a fake module; set_backend rebinding is checked on the implementation.',
+    technique='Coq proof (finite case analysis under universally quantified strings) + exhaustive configuration grid correspondence', design='5/C20')
 NOT_YET = {}
 ALL = ['C%02d' % i for i in range(1, 21)]
 
